@@ -1,0 +1,49 @@
+// Read-only observation hooks used by the external verification harness.
+// Compiled only with `--features verif_hooks`; nothing here changes the
+// behaviour of the linter.
+
+use crate::control_flow::ControlFlow;
+use crate::ignore_directives::parse_ignore_comment_for_verif;
+use crate::js_regex::{EcmaRegexValidator, EcmaVersion};
+use crate::linter::Linter;
+use deno_ast::ParsedSource;
+
+/// Dump of the control-flow analysis of a parsed program.
+pub fn control_flow_dump(
+  parsed_source: &ParsedSource,
+) -> Vec<(usize, bool, u8, [bool; 3])> {
+  parsed_source.with_view(|pg| {
+    ControlFlow::analyze(pg, parsed_source.unresolved_context()).verif_dump()
+  })
+}
+
+/// Runs ONE validator (as no-invalid-regexp does per file) over a sequence of
+/// (pattern, u_flag) pairs and returns each verdict.
+pub fn regex_validate_seq(
+  items: &[(String, bool)],
+) -> Vec<Result<(), String>> {
+  let mut v = EcmaRegexValidator::new(EcmaVersion::Es2022);
+  items
+    .iter()
+    .map(|(p, u)| v.validate_pattern(p, *u))
+    .collect()
+}
+
+pub fn regex_validate_flags(flags: &str) -> Result<(), String> {
+  EcmaRegexValidator::new(EcmaVersion::Es2022).validate_flags(flags)
+}
+
+/// The directive parser applied to a bare comment text.  Codes are returned
+/// in the map's iteration order.
+pub fn parse_ignore_comment_text(
+  word: &str,
+  text: &str,
+  is_line: bool,
+) -> Option<Vec<String>> {
+  parse_ignore_comment_for_verif(word, text, is_line)
+}
+
+/// The rule codes in the order in which the linter runs them.
+pub fn rule_run_order(linter: &Linter) -> Vec<&'static str> {
+  linter.verif_rule_codes()
+}
